@@ -549,22 +549,35 @@ def dsimPlan (newDs : List (Nat × Nat)) : R (Option SubsetHvar.MapPlan) :=
 
 /-! ## COLR v0 -/
 
+/-- `n` records of three u16 at `off` -/
+def readRecs3 (b : Array Nat) : Nat → Nat → Option (List (Nat × Nat × Nat))
+  | _, 0 => some []
+  | off, n + 1 =>
+    match rd 2 b off, rd 2 b (off + 2), rd 2 b (off + 4), readRecs3 b (off + 6) n with
+    | some x, some y, some z, some rest => some ((x, y, z) :: rest)
+    | _, _, _, _ => none
+
+/-- `n` records of two u16 at `off` -/
+def readRecs2 (b : Array Nat) : Nat → Nat → Option (List (Nat × Nat))
+  | _, 0 => some []
+  | off, n + 1 =>
+    match rd 2 b off, rd 2 b (off + 2), readRecs2 b (off + 4) n with
+    | some x, some y, some rest => some ((x, y) :: rest)
+    | _, _, _ => none
+
 /-- the source `BaseGlyph` records: (glyph id, first layer index, num layers) -/
-def baseRecords (b : Array Nat) (h : Header) : Option (List (Nat × Nat × Nat)) := do
-  if h.baseOff + 6 * h.numBase > b.size then none
-  (List.range h.numBase).mapM fun i => do
-    let g ← rd 2 b (h.baseOff + 6 * i)
-    let f ← rd 2 b (h.baseOff + 6 * i + 2)
-    let n ← rd 2 b (h.baseOff + 6 * i + 4)
-    pure (g, f, n)
+def baseRecords (b : Array Nat) (h : Header) : Option (List (Nat × Nat × Nat)) :=
+  if h.baseOff + 6 * h.numBase > b.size then none else readRecs3 b h.baseOff h.numBase
 
 /-- the source `Layer` records: (glyph id, palette index) -/
-def layerRecords (b : Array Nat) (h : Header) : Option (List (Nat × Nat)) := do
-  if h.layerOff + 4 * h.numLayers > b.size then none
-  (List.range h.numLayers).mapM fun i => do
-    let g ← rd 2 b (h.layerOff + 4 * i)
-    let pi ← rd 2 b (h.layerOff + 4 * i + 2)
-    pure (g, pi)
+def layerRecords (b : Array Nat) (h : Header) : Option (List (Nat × Nat)) :=
+  if h.layerOff + 4 * h.numLayers > b.size then none else readRecs2 b h.layerOff h.numLayers
+
+def encodeRecs3 (rs : List (Nat × Nat × Nat)) : List Nat :=
+  rs.flatMap fun r => beBytes 2 r.1 ++ beBytes 2 r.2.1 ++ beBytes 2 r.2.2
+
+def encodeRecs2 (rs : List (Nat × Nat)) : List Nat :=
+  rs.flatMap fun r => beBytes 2 r.1 ++ beBytes 2 r.2
 
 /-- which records `serialize_v0` retains (indices into the source array): per kept glyph a binary
 search when the records outnumber `|glyph set| * bit length`, else a linear filter -/
@@ -572,133 +585,155 @@ def retainedRecords (p : PlanIn) (recs : List (Nat × Nat × Nat)) : List Nat :=
   let n := recs.length
   if n > p.colred.length * Ivs.bitLen (n % 65536) then
     p.colred.filterMap fun g =>
-      match Layout.binarySearchBy n (fun i => Layout.natCmp (recs.getD i (0, 0, 0)).1 g) with
+      match Layout.binarySearchBy n (fun i => Layout.natCmp (recs[i]?.getD (0, 0, 0)).1 g) with
       | .ok i => some i
       | .err _ => none
   else
-    (List.range n).filter fun i => p.colred.contains (recs.getD i (0, 0, 0)).1
+    (List.range n).filter fun i => p.colred.contains (recs[i]?.getD (0, 0, 0)).1
 
-/-- `impl SubsetTable for &[BaseGlyph]` -/
-def baseRecordsGo (p : PlanIn) : List (Nat × Nat × Nat) → Nat → List Nat → R (List Nat × Nat)
-  | [], numLayers, bytes => pure (bytes, numLayers)
-  | (g, _, n) :: rest, numLayers, bytes => do
-    let ng ← lookupOrFail p.glyphMap g
-    -- `num_layers.checked_add(record_num_layers)`: set_err(INT_OVERFLOW)
-    if numLayers + n ≥ 65536 then throw Err.fail
-    baseRecordsGo p rest (numLayers + n) (bytes ++ beBytes 2 ng ++ beBytes 2 numLayers ++ beBytes 2 n)
+/-- `impl SubsetTable for &[BaseGlyph]`: the records written (new glyph id, new first layer index,
+num layers) and the total number of layers; `num_layers.checked_add(..)` ⇒ set_err(INT_OVERFLOW) -/
+def baseRecordsGo (p : PlanIn) : List (Nat × Nat × Nat) → Nat → R (List (Nat × Nat × Nat) × Nat)
+  | [], total => pure ([], total)
+  | (g, _, n) :: rest, total =>
+    match p.glyphMap.lookup g with
+    | none => throw Err.fail
+    | some ng =>
+      if total + n ≥ 65536 then throw Err.fail
+      else
+        baseRecordsGo p rest (total + n) >>= fun r => pure ((ng, total, n) :: r.1, r.2)
+
+/-- the layers `f .. f + n` of the source, glyph ids and palette indices mapped -/
+def layerRange (p : PlanIn) (layers : List (Nat × Nat)) : Nat → Nat → R (List (Nat × Nat))
+  | _, 0 => pure []
+  | f, n + 1 =>
+    match layers[f]? with
+    | none => throw Err.fail
+    | some (g, pi) =>
+      match p.glyphMap.lookup g, p.palettes.lookup pi with
+      | some ng, some npi => layerRange p layers (f + 1) n >>= fun r => pure ((ng, npi) :: r)
+      | _, _ => throw Err.fail
 
 /-- `impl SubsetTable for &[Layer]` -/
-def layersGo (p : PlanIn) (layers : List (Nat × Nat)) : List (Nat × Nat × Nat) → List Nat → R (List Nat)
-  | [], bytes => pure bytes
-  | (_, f, n) :: rest, bytes => do
-    let recs ← (List.range n).mapM fun k =>
-      match layers[f + k]? with
-      | none => throw Err.fail
-      | some (g, pi) => do
-        let ng ← lookupOrFail p.glyphMap g
-        let npi ← lookupOrFail p.palettes pi
-        pure (beBytes 2 ng ++ beBytes 2 npi)
-    layersGo p layers rest (bytes ++ recs.flatten)
+def layersGo (p : PlanIn) (layers : List (Nat × Nat)) : List (Nat × Nat × Nat) → R (List (Nat × Nat))
+  | [] => pure []
+  | (_, f, n) :: rest =>
+    layerRange p layers f n >>= fun a =>
+    layersGo p layers rest >>= fun r => pure (a ++ r)
 
 /-- `serialize_v0`: the header bytes (14 or 34), its links and the packed objects -/
 def serializeV0 (b : Array Nat) (h : Header) (p : PlanIn) (toV0 : Bool) :
-    R (List Nat × List Link × List Obj) := do
+    R (List Nat × List Link × List Obj) :=
   if h.numBase = 0 ∧ toV0 then throw Err.dropped
-  let hdr := List.replicate (if toV0 then 14 else 34) 0
-  if h.baseOff = 0 then pure (hdr, [], [])       -- `base_glyph_records()` is None
   else
-    let some recs := baseRecords b h | throw Err.dropped
-    let idxs := retainedRecords p recs
-    if idxs.isEmpty then
-      if toV0 then throw Err.dropped else pure (hdr, [], [])
+    let hdr := List.replicate (if toV0 then 14 else 34) 0
+    if h.baseOff = 0 then pure (hdr, [], [])       -- `base_glyph_records()` is None
     else
-      let kept := idxs.map fun i => recs.getD i (0, 0, 0)
-      let (bgBytes, numLayers) ← baseRecordsGo p kept 0 []
-      let (i, pk) ← packChild [] ⟨bgBytes, []⟩
-      let hdr := writeBE (writeBE hdr 2 2 (idxs.length % 65536)) 12 2 numLayers
-      -- no layer at all: nothing to serialize, the offset stays null (fix 4de3654)
-      if numLayers = 0 then pure (hdr, [⟨4, 4, i⟩], pk) else
-      -- `colr.layer_records()`: read error or NULL ⇒ Err without a serializer error
-      if h.layerOff = 0 then throw Err.dropped
-      let some layers := layerRecords b h | throw Err.dropped
-      let lBytes ← layersGo p layers kept []
-      let (j, pk) ← packChild pk ⟨lBytes, []⟩
-      pure (hdr, [⟨4, 4, i⟩, ⟨8, 4, j⟩], pk)
+      match baseRecords b h with
+      | none => throw Err.dropped
+      | some recs =>
+        let idxs := retainedRecords p recs
+        if idxs.isEmpty then
+          (if toV0 then throw Err.dropped else pure (hdr, [], []))
+        else
+          let kept := idxs.map fun i => recs[i]?.getD (0, 0, 0)
+          baseRecordsGo p kept 0 >>= fun bn =>
+          packChild [] ⟨encodeRecs3 bn.1, []⟩ >>= fun ip =>
+          let hdr := writeBE (writeBE hdr 2 2 (idxs.length % 65536)) 12 2 bn.2
+          -- no layer at all: nothing to serialize, the offset stays null (fix 4de3654)
+          if bn.2 = 0 then pure (hdr, [⟨4, 4, ip.1⟩], ip.2)
+          -- `colr.layer_records()`: read error or NULL ⇒ Err without a serializer error (fix 2ad446b)
+          else if h.layerOff = 0 then throw Err.dropped
+          else
+            match layerRecords b h with
+            | none => throw Err.dropped
+            | some layers =>
+              layersGo p layers kept >>= fun lb =>
+              packChild ip.2 ⟨encodeRecs2 lb, []⟩ >>= fun jp =>
+              pure (hdr, [⟨4, 4, ip.1⟩, ⟨8, 4, jp.1⟩], jp.2)
 
 /-! ## `Colr::subset` -/
 
-def subsetColr (b : Array Nat) (p : PlanIn) : R (List Nat) := do
-  let some h := readHeader b | throw Err.dropped
-  -- `self.base_glyph_list().transpose()`
-  let bgl : Option (Nat × List (Nat × Nat)) ←
-    match h.v1 with
-    | none => pure none
-    | some (a, _, _, _, _) =>
-      if a = 0 then pure none
-      else if a > b.size then throw Err.dropped
-      else match baseGlyphPaintRecords b a with
-        | none => throw Err.dropped
-        | some recs => pure (some (a, recs))
-  let toV0 := match bgl with
-    | none => true
-    | some (_, recs) => !recs.any fun r => p.colred.contains r.1
-  let (hdr, links, packed) ← serializeV0 b h p toV0
-  if toV0 then layout packed ⟨hdr, links⟩
-  else
-    let some (_, lOff, cOff, mOff, sOff) := h.v1 | throw Err.trap
-    let some (bglOff, bglRecs) := bgl | throw Err.trap
-    let hdr := writeBE hdr 0 2 1
-    -- ItemVariationStore (offset position 30)
-    let (links, packed) ←
-      if sOff = 0 then pure (links, packed)
-      else match readStore b sOff with
-        | none => throw Err.dropped
-        | some st => do
-          match ← storeObj st p.innerMaps packed with
-          | none => pure (links, packed)
-          | some (o, pk) =>
-            let (i, pk) ← packChild pk o
-            pure (links ++ [⟨30, 4, i⟩], pk)
-    -- BaseGlyphList (14)
-    let (o, pk) ← baseListObj b p bglOff bglRecs packed
-    let (i, packed) ← packChild pk o
-    let links := links ++ [⟨14, 4, i⟩]
-    -- LayerList (18)
-    let (links, packed) ←
-      if lOff = 0 then pure (links, packed)
-      else do
-        if lOff > b.size then throw Err.dropped
-        let some n := rd 4 b lOff | throw Err.dropped
-        if lOff + 4 + 4 * n > b.size then throw Err.dropped
-        match ← layerListObj b p lOff n packed with
-        | none => pure (links, packed)
-        | some (o, pk) =>
-          let (i, pk) ← packChild pk o
-          pure (links ++ [⟨18, 4, i⟩], pk)
-    -- ClipList (22)
-    let (links, packed) ←
-      if cOff = 0 then pure (links, packed)
-      else do
-        if cOff > b.size then throw Err.dropped
-        let some clips := clipRecords b cOff | throw Err.dropped
-        match ← clipListObj b p cOff clips packed with
-        | none => pure (links, packed)
-        | some (o, pk) =>
-          let (i, pk) ← packChild pk o
-          pure (links ++ [⟨22, 4, i⟩], pk)
-    -- DeltaSetIndexMap (26)
-    let (links, packed) ←
-      if mOff = 0 then pure (links, packed)
-      else match readDsim b mOff with
-        | .bad => throw Err.dropped
-        | .null => pure (links, packed)
-        | .ok _ _ _ => do
-          match ← dsimPlan p.newDs with
-          | none => pure (links, packed)
-          | some mp =>
-            let mo ← SubsetHvar.serializeMap mp
-            let (i, pk) ← packChild packed ⟨SubsetHvar.mapBytes mo, []⟩
-            pure (links ++ [⟨26, 4, i⟩], pk)
-    layout packed ⟨hdr, links⟩
+/-- one optional version 1 table: `r` = its object (or `none` for SERIALIZE_ERROR_EMPTY, which leaves the
+offset null), linked from the header at `pos` -/
+def linkTable (r : R (Option (Obj × List Obj))) (pos : Nat) (links : List Link) (packed : List Obj) :
+    R (List Link × List Obj) :=
+  r >>= fun x =>
+    match x with
+    | none => pure (links, packed)
+    | some (o, pk) => packChild pk o >>= fun ip => pure (links ++ [⟨pos, 4, ip.1⟩], ip.2)
+
+/-- `self.base_glyph_list().transpose()`: `.ok none` = NULL offset / version 0 -/
+def readBaseGlyphList (b : Array Nat) (h : Header) : R (Option (Nat × List (Nat × Nat))) :=
+  match h.v1 with
+  | none => pure none
+  | some (a, _, _, _, _) =>
+    if a = 0 then pure none
+    else if a > b.size then throw Err.dropped
+    else match baseGlyphPaintRecords b a with
+      | none => throw Err.dropped
+      | some recs => pure (some (a, recs))
+
+/-- `downgrade_to_v0` -/
+def downgradeToV0 (p : PlanIn) (bgl : Option (Nat × List (Nat × Nat))) : Bool :=
+  match bgl with
+  | none => true
+  | some (_, recs) => !recs.any fun r => p.colred.contains r.1
+
+/-- the version 1 part of `Colr::subset`: variation store (30), BaseGlyphList (14), LayerList (18),
+ClipList (22), DeltaSetIndexMap (26), in this order -/
+def v1Tables (b : Array Nat) (p : PlanIn) (bglOff : Nat) (bglRecs : List (Nat × Nat))
+    (lOff cOff mOff sOff : Nat) (links : List Link) (packed : List Obj) : R (List Link × List Obj) :=
+  -- ItemVariationStore
+  (if sOff = 0 then pure (links, packed)
+   else match readStore b sOff with
+     | none => throw Err.dropped
+     | some st => linkTable (storeObj st p.innerMaps packed) 30 links packed) >>= fun s1 =>
+  -- BaseGlyphList
+  linkTable ((baseListObj b p bglOff bglRecs s1.2).map some) 14 s1.1 s1.2 >>= fun s2 =>
+  -- LayerList
+  (if lOff = 0 then pure s2
+   else if lOff > b.size then throw Err.dropped
+   else match rd 4 b lOff with
+     | none => throw Err.dropped
+     | some n =>
+       if lOff + 4 + 4 * n > b.size then throw Err.dropped
+       else linkTable (layerListObj b p lOff n s2.2) 18 s2.1 s2.2) >>= fun s3 =>
+  -- ClipList
+  (if cOff = 0 then pure s3
+   else if cOff > b.size then throw Err.dropped
+   else match clipRecords b cOff with
+     | none => throw Err.dropped
+     | some clips => linkTable (clipListObj b p cOff clips s3.2) 22 s3.1 s3.2) >>= fun s4 =>
+  -- DeltaSetIndexMap
+  (if mOff = 0 then pure s4
+   else match readDsim b mOff with
+     | .bad => throw Err.dropped
+     | .null => pure s4
+     | .ok _ _ _ =>
+       linkTable (dsimPlan p.newDs >>= fun mp =>
+         match mp with
+         | none => pure none
+         | some mp => SubsetHvar.serializeMap mp >>= fun mo =>
+             pure (some (⟨SubsetHvar.mapBytes mo, []⟩, s4.2))) 26 s4.1 s4.2)
+
+/-- `Colr::subset` up to `end_serialize`: the packed objects and the root object -/
+def colrObjects (b : Array Nat) (p : PlanIn) : R (List Obj × Obj) :=
+  match readHeader b with
+  | none => throw Err.dropped
+  | some h =>
+    readBaseGlyphList b h >>= fun bgl =>
+    let toV0 := downgradeToV0 p bgl
+    serializeV0 b h p toV0 >>= fun v0 =>
+    if toV0 then pure (v0.2.2, ⟨v0.1, v0.2.1⟩)
+    else
+      match h.v1, bgl with
+      | some (_, lOff, cOff, mOff, sOff), some (bglOff, bglRecs) =>
+        v1Tables b p bglOff bglRecs lOff cOff mOff sOff v0.2.1 v0.2.2 >>= fun r =>
+        pure (r.2, ⟨writeBE v0.1 0 2 1, r.1⟩)
+      | _, _ => throw Err.trap
+
+def subsetColr (b : Array Nat) (p : PlanIn) : R (List Nat) :=
+  colrObjects b p >>= fun r => layout r.1 r.2
 
 end FontVerif.SubsetColr
